@@ -405,7 +405,7 @@ func (p *Prog) CheckSources(imp types.Importer, pkgPath string, srcs map[string]
 		files = append(files, f)
 	}
 	c.Info = &types.Info{Uses: map[*ast.Ident]types.Object{}, Defs: map[*ast.Ident]types.Object{}, Selections: map[*ast.SelectorExpr]*types.Selection{}}
-	conf := types.Config{Importer: imp}
+	conf := types.Config{Importer: imp, FakeImportC: true} // (files may import "C"; nothing of it is used)
 	pkg, err := conf.Check(pkgPath, c.Fset, files, c.Info)
 	if err != nil {
 		return nil, err
